@@ -93,3 +93,14 @@ CHECKS['C15'] = dict(level='translation_validation',
         'Two known findings (round / roundEven fallbacks under CXX98/CXX03) are listed in known_findings.jsonl.',
    technique='cross-configuration differential of instantiated LLVM IR: term identity, integer polynomial identity, ordering / float-class abstract evaluation')
 NOT_APPLICABLE.pop('C15', None)
+
+CHECKS['C05'] = dict(level='proof',
+   text='bitfieldReverse (output bit i is input bit W-1-i, as a permutation or bit by bit by truth table), bitCount (llvm.ctpop of the input, or a mask-and-add ladder whose final field is '
+        'the sum of all W input bits with every intermediate field sum bounded below its width), bitfieldExtract / bitfieldInsert for every constant (offset, bits) pair (exhaustive for 8/16-bit, '
+        'boundary set for 32/64-bit in quick, exhaustive in thorough) as pure bit placement with the GLSL extension rule, uaddCarry / usubBorrow / umulExtended / imulExtended as polynomials mod 2^32 '
+        '/ slices of the exact 64-bit product and canonical carry/borrow compares — for widths 8..64, signed and unsigned, scalar and vector, valid for every input value; every overload must instantiate.',
+   note='Not decided (UNDECIDED): findLSB / findMSB (the identity popcount(~v & (v-1)) == cttz(v) is arithmetic on carries and LLVM does not expose cttz/ctlz here), bitCount on packed 8/16-bit vec4 '
+        '(LLVM merges lanes into one SWAR word). Two known findings are recorded (usubBorrow operand order; signed bitfieldExtract zero-extends); the field content of signed extracts is still '
+        'checked by rule extract_field so other regressions there are not masked.',
+   technique='bit-provenance normal forms, SWAR field-sum abstract domain, modular polynomial identities over instantiated LLVM IR; compile-fail existence witnesses')
+NOT_APPLICABLE.pop('C05', None)
